@@ -1,18 +1,34 @@
 (* C03 — the parsed tree is the tree the SQL grammar prescribes.
 
-   FULL statement (what the property asks for the expression level): for EVERY reference expression
-   (ref_expr e = true), every parenthesisation r, every admissible follow token list, within the depth limit:
-     parse_expression md no_defects fuel d (render 0 r e ++ stop) = Val (ast_of e, stop).
-   PROVED below: the same statement for the sub-surface [proved e = true] (identifiers, qualified
-   identifiers, all literals, placeholders, every binary operator of the ladder, NOT, IS [NOT] NULL,
-   [NOT] BETWEEN, [NOT] LIKE / ILIKE, [NOT] IN (list), e::type and CAST(e AS type) with a plain type name, any
-   parentheses).  Omitted productions (covered by the model-vs-code correspondence and by the prescribed-tree
-   oracle, see design/C03.md): function calls, CASE, tuples, type names with arguments.
-   Statement-level theorems (parse_render_select ...) do not exist yet: SELECT / DML / DDL are covered by the
-   prescribed-tree oracle only. *)
+   FULL statement (what the property asks): for EVERY statement of the documented surface, every parenthesisation that
+   preserves the model tree, the tree returned by the parser is the prescribed one and the statement is not rejected.
+   PROVED below, about the Gallina models of parseExpression (Model/ExprParse.v) and parseStatement (Model/StmtParse.v),
+   which are tied to the code on every run by the model-vs-code correspondence:
+     - C03_parse_render_expr_ext      every reference expression of Spec/RefGrammar.v (the whole of [mexpr]);
+     - C03_parse_render_expr_partial  the earlier statement for the sub-surface [proved] (kept for C06);
+     - C03_parse_render_select_partial, C03_parse_render_stmt_partial   every reference SELECT / statement of Spec/RefStmt.v;
+     - C03_refuted_*                  the statements are false with a defect switch on (witnesses).
+   `_partial` = the reference grammars do not contain the whole documented surface; the omitted constructs are listed at
+   each theorem and in design/C03.md; they are covered by the prescribed-tree oracle (and, where modelled, by the
+   correspondence) only. *)
 From Coq Require Import List String Arith.
-From GV Require Import Spec.RefGrammar Model.Expr Model.ExprParse Proofs.ExprParseP.
+From GV Require Import Spec.RefGrammar Spec.RefStmt Model.Expr Model.ExprParse Model.StmtParse Proofs.ExprParseP Proofs.ExprParseExtP Proofs.StmtParseP.
 Import ListNotations.
+
+(* The expression-level statement for the WHOLE reference expression grammar [mexpr] of Spec/RefGrammar.v (no
+   sub-surface predicate): function calls (plain / DISTINCT), CASE (both forms), tuples and type names with
+   arguments included.  Still outside [mexpr] (hence outside this theorem; covered by the model-vs-code
+   correspondence where modelled and by the prescribed-tree oracle): FILTER / OVER / WITHIN GROUP / ORDER BY inside a
+   call, EXISTS, scalar / IN / ANY / ALL sub-queries, ARRAY, subscripts and slices, INTERVAL, JSON operators, REGEXP /
+   RLIKE, unary minus / plus, `*` and `t.*`. *)
+Theorem C03_parse_render_expr_ext :
+  forall md e (r : rho) stop d fuel,
+    ref_expr e = true -> follow_ok stop ->
+    d + 1 + pdepth 0 r e <= md ->
+    List.length (render 0 r e ++ stop) < fuel ->
+    parse_expression md no_defects fuel d (render 0 r e ++ stop) = Val (ast_of e, stop).
+Proof. exact parse_render_expr_ext. Qed.
+Print Assumptions C03_parse_render_expr_ext.
 
 Theorem C03_parse_render_expr_partial :
   forall md e (r : rho) stop d fuel,
@@ -42,4 +58,73 @@ Example C03_nonvacuous :
   /\ parse_expr_top no_defects 0 (render 0 no_parens ex_mixed ++ [Tk TyEOF ""%string]) = Val (ast_of ex_mixed, [Tk TyEOF ""%string]).
 Proof.
   split; [reflexivity|]. split; [reflexivity|]. split; [apply follow_eof|]. split; [apply ex_mixed_depth|apply ex_mixed_parse].
+Qed.
+
+(* ------------------------------------------------------------------------------------------------ *)
+(* Statement level.  FULL statement: for every statement of the documented surface the tree returned by
+   parseStatement is the prescribed one.  PROVED: the reference statements of Spec/RefStmt.v (see the list of
+   clauses there and in design/C03.md); the clauses not in that reference grammar are covered by the prescribed-tree
+   oracle (and, where modelled, by the model-vs-code correspondence) only. *)
+
+(* one SELECT statement: DISTINCT [ON (...)], select list with aliases, `*` and `t.*`, FROM list with qualified names and aliases,
+   joins of every kind with ON / USING, WHERE, GROUP BY with plain expressions, ROLLUP (...) and CUBE (...), HAVING, ORDER BY
+   with direction and NULLS FIRST | LAST, LIMIT, OFFSET, FETCH {FIRST | NEXT} n [PERCENT] [ROW | ROWS] {ONLY | WITH TIES};
+   every parenthesisation choice [sr] of every expression; for the tree as it is ([tree_flags], switch
+   [d_no_alias_after_column] on) under the side condition that no alias without AS follows a bare column reference, for
+   the repaired configuration without it.
+   Omitted clauses: SELECT ALL, derived tables, LATERAL, GROUPING SETS, MySQL WITH ROLLUP, FOR, sub-query
+   expressions, window functions (FILTER / OVER / WITHIN GROUP). *)
+Theorem C03_parse_render_select_partial :
+  forall md sf fuel (sr : srho) s stop d,
+    select_ok s = true -> (d_no_alias_after_column sf = false \/ select_bare_alias_free s = true) ->
+    query_follow stop ->
+    d + 2 + select_depth sr s <= md ->
+    List.length (render_select sr s ++ stop) <= fuel ->
+    parse_statement md sf (parse_expression md no_defects fuel) d (render_select sr s ++ stop)
+    = Val (GSelectS (ast_of_select s), stop).
+Proof. exact parse_render_select. Qed.
+Print Assumptions C03_parse_render_select_partial.
+
+(* every reference statement of Spec/RefStmt.v: [WITH [RECURSIVE] ctes] followed by a query expression (SELECTs combined
+   by UNION | EXCEPT | INTERSECT [ALL], left-nested), INSERT (column list, VALUES rows | query, ON CONFLICT [(columns) | ON
+   CONSTRAINT name] DO NOTHING | DO UPDATE SET ... [WHERE ...], RETURNING), UPDATE (SET,
+   WHERE, RETURNING) or DELETE (WHERE, RETURNING); CTEs with column lists, [NOT] MATERIALIZED and query bodies.  One
+   equation: accepted, nothing beyond the statement consumed, the whole tree equal to the prescribed one (WITH on the
+   left-most SELECT of a set operation, JOIN attached to the last FROM item, ...).
+   Omitted (besides the SELECT clauses listed above): ORDER BY / LIMIT on operands of set operations (known finding
+   `setop-trailing-order-by`), CTE bodies other than queries, nested WITH, ON DUPLICATE KEY, UPDATE ... FROM,
+   DELETE ... USING, MERGE, DDL, the MySQL dialect. *)
+Theorem C03_parse_render_stmt_partial :
+  forall md sf fuel (sr : srho) s stop d,
+    stmt_ok s = true -> (d_no_alias_after_column sf = false \/ stmt_bare_alias_free s = true) ->
+    stmt_follow stop ->
+    d + stmt_depth sr s <= md ->
+    List.length (render_stmt sr s ++ stop) <= fuel ->
+    parse_statement md sf (parse_expression md no_defects fuel) d (render_stmt sr s ++ stop) = Val (ast_of_stmt s, stop).
+Proof. exact parse_render_stmt. Qed.
+Print Assumptions C03_parse_render_stmt_partial.
+
+Theorem C03_select_refuted_bare_alias :
+  exists s stop, select_ok s = true /\ query_follow stop /\
+    parse_statement 100 tree_flags (parse_expression 100 no_defects 100) 0 (render_select (fun _ _ => no_parens) s ++ stop)
+    <> Val (GSelectS (ast_of_select s), stop).
+Proof. exact parse_render_select_refuted_bare_alias. Qed.
+Print Assumptions C03_select_refuted_bare_alias.
+
+Example C03_select_nonvacuous :
+  select_ok ex_select = true /\ select_bare_alias_free ex_select = true /\ query_follow [Tk TyEOF ""%string]
+  /\ parse_statement_top tree_flags (render_select (fun _ _ => no_parens) ex_select ++ [Tk TyEOF ""%string])
+     = Val (GSelectS (ast_of_select ex_select), [Tk TyEOF ""%string]).
+Proof.
+  split; [reflexivity|]. split; [reflexivity|]. split; [eexists _, _; split; reflexivity|apply ex_select_parse].
+Qed.
+
+Example C03_stmt_nonvacuous :
+  stmt_ok ex_stmt_with = true /\ stmt_ok ex_stmt_insert = true /\ stmt_follow [Tk TyEOF ""%string]
+  /\ parse_statement_top tree_flags (render_stmt (fun _ _ => no_parens) ex_stmt_with ++ [Tk TyEOF ""%string])
+     = Val (ast_of_stmt ex_stmt_with, [Tk TyEOF ""%string])
+  /\ parse_statement_top tree_flags (render_stmt (fun _ _ => no_parens) ex_stmt_insert ++ [Tk TyEOF ""%string])
+     = Val (ast_of_stmt ex_stmt_insert, [Tk TyEOF ""%string]).
+Proof.
+  split; [reflexivity|]. split; [reflexivity|]. split; [apply stmt_follow_eof|]. split; [apply ex_stmt_with_parse|apply ex_stmt_insert_parse].
 Qed.
